@@ -400,6 +400,23 @@ func (e *Engine) syntacticNonNil(v ssa.Value, depth int) bool {
 		if g, ok := x.X.(*ssa.Global); ok && isErrorType(x.Type()) && strings.HasPrefix(g.Name(), "Err") {
 			return true
 		}
+		// a result spilled to its slot because the function has a defer
+		// (`*r = v; rundefers; return *r`): the value stored last in the same block
+		if al, ok := x.X.(*ssa.Alloc); ok && x.Op == token.MUL {
+			blk := x.Block()
+			var last *ssa.Store
+			for _, in := range blk.Instrs {
+				if in == ssa.Instruction(x) {
+					break
+				}
+				if st, ok := in.(*ssa.Store); ok && st.Addr == ssa.Value(al) {
+					last = st
+				}
+			}
+			if last != nil {
+				return e.syntacticNonNil(last.Val, depth+1)
+			}
+		}
 	case *ssa.Phi:
 		for _, ed := range x.Edges {
 			if !e.syntacticNonNil(ed, depth+1) {
